@@ -358,9 +358,37 @@ pub fn comment() -> BoxedStrategy<Vec<u8>> {
     .boxed()
 }
 
+/// content that is itself a small ZIP archive (nested archives put record signatures, incl. a
+/// second end-of-central-directory record, inside entry data)
+pub fn nested_zip() -> BoxedStrategy<Content> {
+    (any::<u64>(), 0u32..200, any::<bool>())
+        .prop_map(|(seed, len, with_comment)| {
+            let mut spec = crate::refzip::ArchiveSpec::plain(vec![crate::refzip::EntrySpec::simple(b"inner.txt", 0, Content::Text { seed, len })]);
+            if with_comment {
+                spec.comment = b"inner comment".to_vec();
+            }
+            Content::Bytes(crate::refzip::build::build(&spec).expect("nested zip").bytes)
+        })
+        .boxed()
+}
+
+/// cap expensive compression levels (zstd >= 15 allocates very large windows); used by
+/// properties that re-run a program thousands of times
+pub fn tame(mut p: Program) -> Program {
+    for op in &mut p.ops {
+        if let Op::File { opts, .. } | Op::ExtraFile { opts, .. } | Op::Aligned { opts, .. } = op {
+            if opts.method == Method::Zstd && opts.level.map(|l| l > 12).unwrap_or(false) {
+                opts.level = Some(12);
+            }
+        }
+    }
+    p
+}
+
 pub fn chunks(max: u32) -> BoxedStrategy<Vec<Content>> {
     prop_oneof![
         1 => Just(vec![]),
+        1 => nested_zip().prop_map(|c| vec![c]),
         5 => content::content(max).prop_map(|c| vec![c]),
         2 => proptest::collection::vec(content::content(max / 4 + 1), 2..5),
     ]
